@@ -272,3 +272,146 @@ PRED_UNIT = Unit("C02.predecessors", PRED, pred_setup,
                               "WHICH opnames never fall through and that dis' jump targets are right is interpreter knowledge (bounded legs g1 / corpus)"])
 
 UNITS = [IWH_UNIT, PRED_UNIT]
+
+
+# ------------------------------------------------------------------------------------------------ backtrack_over_load_none
+# backtrack_over_load_none(): `offs` (a variable of the enclosing function) points at an instruction; if that is not LOAD_CONST the
+# answer is False and offs stays; otherwise offs moves back over the instruction and over EVERY directly preceding EXTENDED_ARG
+# (stopping at offset 0), the operand is assembled from the LOAD_CONST byte and the prefix bytes (byte j shifted by 8*j), and
+# the answer is `co_consts[operand] is None`.
+BLN = LL + "currently_exiting_context.backtrack_over_load_none"
+shl = Function("C02.shift_left", IntSort(), IntSort(), IntSort())     # x << n   (uninterpreted: the code's own operator, named)
+bor = Function("C02.bit_or", IntSort(), IntSort(), IntSort())         # x | y
+OPER = Function("C02.operand_after_prefixes", IntSort(), IntSort(), IntSort())   # ghost: (start offset, number of prefixes used) -> operand
+for _n in ("LOAD_CONST", "EXTENDED_ARG"):
+    OPC[_n] = z3.Int("opcode_" + _n)
+
+
+def bln_setup(ex, p):
+    offs = sym_int(p, "offs")
+    frame = sym_ref(p, "frame", "frame")
+    co = sym_ref(p, "code_object", "code")
+    consts = sym_seq(p, "co_consts", "tuple")
+    p.setf(frame.t, "f_code", co.t)
+    p.setf(co.t, "co_consts", consts.t)
+    p.pc += [Val.i(offs.t) >= 0, p.lo(consts.t) == 0]
+    p.env.update(offs=offs, frame=frame, code=SV(fresh("co_code"), ty="codebytes"), op=SV(fresh("opmap"), ty="opmap"))
+    def m_code_getitem(ex_, p_, args, kw, node):
+        return [("ok", p_, SV(mkint(code_at(Val.i(args[1].t))), ty="codeint"))]
+    def m_op_getitem(ex_, p_, args, kw, node):
+        n = args[1].get("pyconst")
+        if n not in OPC:
+            raise Unsupported(f"dis.opmap key {n!r}")
+        return [("ok", p_, sv_int(OPC[n]))]
+    def m_codeint_binop(ex_, p_, args, kw, node):
+        x, y = Val.i(args[0].t), Val.i(args[1].t)
+        if kw["op"] == "LShift":
+            return [("ok", p_, SV(mkint(shl(x, y)), ty="codeint"))]
+        if kw["op"] == "BitOr":
+            return [("ok", p_, SV(mkint(bor(x, y)), ty="codeint"))]
+        raise Unsupported(f"operator {kw['op']} on a code byte")
+    ex.unit.methods.update({("codebytes", "__getitem__"): m_code_getitem, ("opmap", "__getitem__"): m_op_getitem,
+                            ("codeint", "__binop__"): m_codeint_binop})
+    o0 = Val.i(offs.t)
+    p.pc.append(OPER(o0, 0) == code_at(o0 + 1))
+    ex.unit_args = dict(offs0=offs, consts=consts, H0=p.snap())
+    return ex.unit_args
+
+
+def bln_inv():
+    def j_of(ctx):
+        return Val.i(ctx.v("shift")) / 8 - 1
+    def qf(ctx):
+        o0 = Val.i(ctx.ex.unit_args["offs0"].t)
+        sh, offs, arg = Val.i(ctx.v("shift")), Val.i(ctx.v("offs")), Val.i(ctx.v("arg"))
+        j = j_of(ctx)
+        return And(Val.is_intv(ctx.v("shift")), Val.is_intv(ctx.v("offs")), Val.is_intv(ctx.v("arg")), sh >= 8, sh % 8 == 0,
+                   offs == o0 - 2 - 2 * j, arg == OPER(o0, j), ctx.v("frame") == ctx.v0("frame"))
+    def defs(ctx):
+        o0 = Val.i(ctx.ex.unit_args["offs0"].t)
+        j = j_of(ctx)
+        # defining recursion of the ghost operand: prefix number j+1 sits at o0 - 2(j+1), its byte is shifted by 8(j+1)
+        return OPER(o0, j + 1) == bor(OPER(o0, j), shl(code_at(o0 - 2 * (j + 1) + 1), 8 * (j + 1)))
+    return Inv("C02.load_none.extended_arg_prefixes", qf=qf, defs=defs, header="EXTENDED_ARG", var_types={"shift": "int", "offs": "int", "arg": "codeint"})
+
+
+def bln_post(ctx):
+    o0 = Val.i(ctx.ex.unit_args["offs0"].t)
+    consts, H0 = ctx.ex.unit_args["consts"].t, ctx.ex.unit_args["H0"]
+    offs = Val.i(ctx.env["offs"].t)
+    r = ctx.result.t
+    not_load = code_at(o0) != OPC["LOAD_CONST"]
+    j = (o0 - 2 - offs) / 2
+    operand = OPER(o0, j)
+    idx = If(operand >= 0, operand, H0.length(consts) + operand)       # Python's co_consts[operand]
+    ctx.p.read(consts, idx, H0)
+    return And(Implies(not_load, And(r == mkbool(False), offs == o0)), Implies(Not(not_load),
+              And(offs <= o0 - 2, (o0 - 2 - offs) % 2 == 0,
+                  # stopped at the first instruction that is not an EXTENDED_ARG prefix (or at offset 0)
+                  Or(offs == 0, code_at(offs) != OPC["EXTENDED_ARG"]),
+                  r == mkbool(Val.is_none(H0.at(consts, idx))))))
+
+
+BLN_UNIT = Unit("C02.backtrack_over_load_none", BLN, bln_setup,
+                post=[Clause("C02.load_none.operand_from_prefix_bytes_and_none_test", bln_post)],
+                bindings=dict(STD_BINDINGS), methods=dict(STD_METHODS),
+                invariants={(BLN, "while#1"): bln_inv()}, field_types={"f_code": "code", "co_consts": "tuple"},
+                allowed_raise=lambda ctx: is_kind(ctx.exc.t, "IndexError"), cfg=dict(version=(3, 12, 1, "final", 0)),
+                assumptions=["closure variables: `offs` (an int >= 0, written through `nonlocal`), `code` = co_code bytes (indexing in range - not checked), "
+                             "`frame.f_code.co_consts` a tuple; IndexError when the assembled operand is out of range is allowed (cannot happen for compiler output)",
+                             "`<<` and `|` on code bytes are named, not interpreted: the clause says the operand is assembled by exactly these operators from "
+                             "exactly these bytes (ghost operand_after_prefixes introduced by its defining recursion); that every visited prefix IS an "
+                             "EXTENDED_ARG follows from the loop test and is not restated as a quantified clause"])
+
+UNITS = [IWH_UNIT, PRED_UNIT, BLN_UNIT]
+
+
+# ------------------------------------------------------------------------------------------------ inspect_frame (dispatcher)
+# stackscope._lowlevel.inspect_frame picks the frame reader for the running interpreter on first use: CPython < 3.11 -> the
+# block-stack reader (_lowlevel_cpython_310), CPython >= 3.11 -> the exception-table reader (_lowlevel_cpython_311), and hands the
+# frame to it unchanged, returning its result.  (Both readers are under contract: contracts/inspect310.py, inspect311.py.)
+DISP = LL + "inspect_frame"
+
+
+def disp_setup(ex, p):
+    frame = sym_ref(p, "frame", "frame")
+    p.env["frame"] = frame
+    p.ghost["imports"] = ()
+    def reader(ex_, p_, args, kw, node):
+        r = fresh("details")
+        p_.ghost["reader_calls"] = p_.ghost.get("reader_calls", ()) + ((p_.ghost.get("imports", ()), tuple(a.t for a in args), r),)
+        return [("ok", p_, SV(r))]
+    ex.unit.bindings["inspect_frame"] = reader
+    ex.unit_args = dict(frame=frame)
+    return ex.unit_args
+
+
+def disp_before_stmt(ex, n, p):
+    import ast as _ast
+    if isinstance(n, _ast.ImportFrom):
+        p.ghost["imports"] = p.ghost.get("imports", ()) + ((n.module, n.level, tuple(a.name for a in n.names)),)
+
+
+def disp_post(expected_module):
+    def post(ctx):
+        calls = ctx.p.ghost.get("reader_calls", ())
+        if len(calls) != 1:
+            return BoolVal(False)
+        imports, args, r = calls[0]
+        return And(BoolVal(imports == ((expected_module, 1, ("inspect_frame",)),)), BoolVal(len(args) == 1),
+                   args[0] == ctx.args["frame"].t, ctx.result.t == r)
+    return post
+
+
+def disp_unit(tag, version, module):
+    return Unit("C01.inspect_frame_dispatch" + tag, DISP, disp_setup,
+                post=[Clause("C01.dispatch.reader_of_the_running_interpreter_gets_the_frame" + tag, disp_post(module))],
+                bindings=dict(STD_BINDINGS), methods=dict(STD_METHODS), before_stmt=disp_before_stmt,
+                allowed_raise=lambda ctx: BoolVal(False), cfg=dict(version=version, impl="cpython"),
+                assumptions=["`from ._lowlevel_cpython_3xx import inspect_frame` binds the name to that module's function (import system); "
+                             "the rebinding of the module global is what makes later calls go straight to the reader"])
+
+
+DISP_UNITS = [disp_unit("", (3, 12, 1, "final", 0), "_lowlevel_cpython_311"), disp_unit("@py311", (3, 11, 7, "final", 0), "_lowlevel_cpython_311"),
+              disp_unit("@py310", (3, 10, 13, "final", 0), "_lowlevel_cpython_310"), disp_unit("@py39", (3, 9, 18, "final", 0), "_lowlevel_cpython_310")]
+UNITS = [IWH_UNIT, PRED_UNIT, BLN_UNIT] + DISP_UNITS
